@@ -188,9 +188,24 @@ def generated(args):
     return traces
 
 
+def film_params(case, asm_name):
+    """Constants (a, b, c, d) of Nu = a Re^b Pr^c + d for the clad-to-coolant
+    film of an assembly type, from the input: the user's htc_params_clad or
+    the documented default for wire-wrapped bundles."""
+    t = case['types'][asm_name]
+    sec = t.get('FuelModel') or t.get('PinModel') or {}
+    hp = sec.get('htc_params_clad')
+    if hp is not None:
+        return [float(x) for x in hp]
+    p2d = t['pin_pitch'] / t['pin_diameter']
+    return [p2d ** 3.8 * 0.01 ** 0.86 / 3.0, 0.86, 0.86,
+            4.0 + 0.16 * p2d ** 5]
+
+
 class PinObs(drive.Observer):
-    def __init__(self, reactor, stride=7):
+    def __init__(self, reactor, stride=7, case=None):
         self.r = reactor
+        self.case = case
         self.ev = []
         self.stride = stride
         self.proj = {}
@@ -204,9 +219,18 @@ class PinObs(drive.Observer):
             pw = np.zeros(reg.n_pin)
         pm = reg.pin_model
         t = reg.pin_temps[:, 3:]
-        nu = reg.corr['pin_nu'](reg.coolant, reg.coolant_int_params['Re'],
-                                pm.htc_params)
-        h = reg.coolant.thermal_conductivity * nu / reg.bundle_params['de']
+        # film coefficient from the input's correlation constants and the
+        # bundle-average Reynolds and Prandtl numbers, not from the solver's
+        # own Nusselt routine
+        a_, b_, c_, d_ = (film_params(self.case, asm.name) if self.case
+                          else pm.htc_params)
+        cool = reg.coolant
+        de = reg.bundle_params['de']
+        re_b = (reg.int_flow_rate * de
+                / (reg.bundle_params['area'] * cool.viscosity))
+        pr = cool.heat_capacity * cool.viscosity / cool.thermal_conductivity
+        nu = a_ * re_b ** b_ * pr ** c_ + d_
+        h = cool.thermal_conductivity * nu / de
         idx = list(range(0, reg.n_pin, max(1, reg.n_pin // 6)))
         sub = pin_events(pm, pw[idx], t[idx, 0], np.full(len(idx), h), dz,
                          t[idx])
@@ -257,7 +281,7 @@ def recorded(args):
     try:
         try:
             inp, r = cases.build(dassh, case, str(d))
-            ob = PinObs(r)
+            ob = PinObs(r, case=case)
             with drive.Recorder(dassh, r, [ob]) as rec:
                 rec.sweep()
             ev = ob.ev
@@ -292,6 +316,17 @@ def run(tier, res, replay=None):
         'r_frac': [0.15, 0.5, 0.8], 'pu_frac': [0.2, 0.2, 0.2],
         'zr_frac': [0.1, 0.1, 0.1], 'porosity': [0.25, 0.2, 0.15]}
     rec_cases.append(('rod3-annular-metalfuel-gasgap', c))
+    # user film correlations whose Reynolds and Prandtl exponents differ
+    c = trackcheck.with_pins(copy.deepcopy(sl['rod3-flowgap']))
+    c['types']['a1']['PinModel']['htc_params_clad'] = [0.023, 0.8, 0.4, 7.0]
+    rec_cases.append(('rod3-pins-film-db', c))
+    c = copy.deepcopy(sl['rod2-adiabatic'])
+    c['types']['a1']['FuelModel'] = {
+        'gap_thickness': 0.0, 'clad_material': 'ht9',
+        'htc_params_clad': [0.05, 0.7, 1.1, 3.0],
+        'r_frac': [0.0, 0.33333, 0.66667], 'pu_frac': [0.2, 0.2, 0.2],
+        'zr_frac': [0.1, 0.1, 0.1], 'porosity': [0.25, 0.2, 0.15]}
+    rec_cases.append(('rod2-metalfuel-film-user', c))
     ngen = 8 if tier == 'quick' else 32
     per = 12 if tier == 'quick' else 40
     with ProcessPoolExecutor(max_workers=common.NCPU) as ex:
